@@ -13,6 +13,7 @@ CONSTANTS
   WithErrors = FALSE
   WithIdle = TRUE
   WithSleep = FALSE
+  TimeoutTypes = {}
   KeepLog = FALSE
 INVARIANT TypeOK
 INVARIANT LockOK
